@@ -285,7 +285,11 @@ macro_rules! encode_type_harness {
                 let choices: [u8; 6] = kani::any();
                 let mut i = 0;
                 while i < 6 {
-                    kani::assume(choices[i] < 6);
+                    // symbolic choices are restricted to {bool, A, B, P}: with array kinds in the choice the
+                    // recursive MemberKind::struct_reference is unrolled to the unwind bound at every call
+                    // site (156 sites x depth 12, no result in 510 s); arrays are covered by the concrete
+                    // graphs of c08_encode_type_arrays
+                    kani::assume(choices[i] < 4);
                     i += 1;
                 }
                 check_encode_type($p, choices);
@@ -306,6 +310,22 @@ types_harness! {
             i += 1;
         }
         check_encode_type(2, [c[0], 0, c[1], 0, c[2], c[3]]);
+    }
+}
+
+// Concrete graphs whose references go through (nested) arrays, including recursion through arrays:
+// P(A[] x,B[2] y) A(P x,bool y) B(A[] x,A y)  and  self-recursive P(P x,A[] y).
+types_harness! {
+    #[kani::unwind(12)]
+    fn c08_encode_type_arrays() {
+        let which: bool = kani::any();
+        if which {
+            check_encode_type(2, [3, 0, 4, 1, 4, 5]);
+        } else {
+            check_encode_type(2, [0, 0, 0, 0, 3, 4]);
+        }
+        kani::cover!(which, "mutual recursion through arrays");
+        kani::cover!(!which, "self recursion");
     }
 }
 
@@ -881,3 +901,70 @@ crate::verif_harness! {
         core::mem::forget(got);
     }
 }
+
+// ------------------------------------------------------------------------------------------------
+// Width grammar with a concrete prefix and symbolic decimal digits: "uint"/"int"/"bytes" followed by
+// 1..=3 symbolic digits (every width 0..=999 in every spelling), optionally followed by "[]".
+// (All ASCII strings of N bytes through the recursive parser -- c08_kind_ascii_N -- did not finish:
+// the recursion is unrolled to the unwind bound at every call site.)
+fn check_width(prefix: &'static [u8], array: bool) {
+    let d: [u8; 3] = kani::any();
+    let nd: usize = kani::any();
+    kani::assume(nd >= 1 && nd <= 3);
+    let mut text = [0u8; 10];
+    let pl = prefix.len();
+    text[..pl].copy_from_slice(prefix);
+    let mut k = 0;
+    let mut value: u32 = 0;
+    while k < 3 {
+        if k < nd {
+            kani::assume(d[k].is_ascii_digit());
+            text[pl + k] = d[k];
+            value = value * 10 + (d[k] - b'0') as u32;
+        }
+        k += 1;
+    }
+    let mut n = pl + nd;
+    if array {
+        text[n] = b'[';
+        text[n + 1] = b']';
+        n += 2;
+    }
+    let leading_zero = nd > 1 && d[0] == b'0';
+    let s = unsafe { core::str::from_utf8_unchecked(&text[..n]) };
+    let got = MemberKind::from_str(s);
+    let is_bytes = prefix.len() == 5;
+    let is_uint = prefix.len() == 4;
+    let valid = if is_bytes { value >= 1 && value <= 32 } else { value % 8 == 0 && value >= 8 && value <= 256 };
+    kani::cover!(valid && value == 256, "256 accepted (integers)");
+    kani::cover!(valid && value == 32, "32 accepted");
+    kani::cover!(!valid && value == 33, "33");
+    kani::cover!(!valid && value == 0, "zero width");
+    kani::cover!(valid && value == 8 && !leading_zero, "8");
+    if !leading_zero {
+        let inner = if array {
+            match &got {
+                MemberKind::Array(inner, None) => &**inner,
+                _ => panic!("array suffix not recognised"),
+            }
+        } else {
+            &got
+        };
+        match inner {
+            MemberKind::Bytes(Some(w)) => assert!(is_bytes && valid && *w == value, "bytesN width"),
+            MemberKind::Uint(w) => assert!(is_uint && !is_bytes && valid && *w == value, "uintN width"),
+            MemberKind::Int(w) => assert!(!is_uint && !is_bytes && valid && *w == value, "intN width"),
+            MemberKind::Struct(name) => {
+                assert!(!valid, "valid width parsed as a struct name");
+                assert!(name.len() == pl + nd, "struct name is the whole text");
+            }
+            _ => panic!("width type parsed to an unrelated kind"),
+        }
+    }
+    core::mem::forget(got);
+}
+crate::verif_harness! { #[kani::unwind(12)] fn c08_kind_width_uint() { check_width(b"uint", false) } }
+crate::verif_harness! { #[kani::unwind(12)] fn c08_kind_width_int() { check_width(b"int", false) } }
+crate::verif_harness! { #[kani::unwind(12)] fn c08_kind_width_bytes() { check_width(b"bytes", false) } }
+crate::verif_harness! { #[kani::unwind(12)] fn c08_kind_width_uint_array() { check_width(b"uint", true) } }
+crate::verif_harness! { #[kani::unwind(12)] fn c08_kind_width_bytes_array() { check_width(b"bytes", true) } }
